@@ -38,8 +38,10 @@ def cases(tier, rng, prefix):
         for i in range(0, len(s) + 1, max(1, len(s) // 12)):   # truncations
             add(s[:i])
         add(s.replace("\n", "\r\n")); add(s + "\r"); add(s.replace("a", "é")); add(s.upper())
+        for w in ("\u00a0", "\x0c", "\x0b", "\u2003", "\u0085"):   # Unicode whitespace outside the ASCII classes
+            add(s.replace(" ", w, 1)); add(s + w)
     n = {"quick": 4, "search": 4, "thorough": 5}[tier]
-    for s in gen.exhaustive(["A", ":", " ", "\n", "-", "#", "é", "(", "<", "["], n): add(s)
+    for s in gen.exhaustive(["A", ":", " ", "\n", "-", "#", "é", "(", "<", "[", "\u00a0"], n): add(s)
     m = {"quick": 2500, "search": 8000, "thorough": 60000}[tier]
     for _ in range(m):
         k = rng.random()
